@@ -262,6 +262,10 @@ func copyBlock(b *types.Block) *types.Block {
 // SubmitTx offers a transaction to the node's mempool.
 func (n *Node) SubmitTx(tx *types.Tx) (bool, error) {
 	n.Activate()
+	// one virtual millisecond between submissions: the proposer orders pool
+	// transactions by arrival time with an unstable sort over a map walk, so equal
+	// arrival times would make block contents differ from run to run
+	time.Sleep(time.Millisecond)
 	orphan, err := n.Chain.ValidateTx(tx)
 	synctest.Wait()
 	return orphan, err
@@ -364,6 +368,9 @@ func (w *World) Admit(res *ProposeResult) *model.BlockState {
 	}
 	w.Blocks[h] = b
 	w.Order = append(w.Order, h)
+	if os.Getenv("VERIF_DEBUG_HASH") != "" {
+		fmt.Fprintf(os.Stderr, "DEBUGHASH B%d h=%d ts=%d txs=%d %s\n", len(w.Order)-1, b.Height, b.Timestamp, len(b.Transactions), h.String())
+	}
 	if res.Node != nil && res.FeedErr == nil && !res.FeedOrphan && res.Node.Best() == h {
 		w.snaps[h] = res.Node.Disk.Clone()
 	}
